@@ -14,7 +14,7 @@ import Verif.Lemmas.DeadNodes
 namespace Verif.Props.C14
 open Verif.Codec
 open Verif.Mpt (Bytes Nib Node key WFn nibChar lookup)
-open Verif.Partial (Resolves Unfolds toP buildP depth lookupP ofOpt)
+open Verif.Partial (Resolves Unfolds toP buildP depth lookupP ofOpt recomputeKey)
 
 /-- Encoding a well-formed node and decoding it yields the same node.  `ReprWF`: paths are hex digits, branch child keys
     have 32 bytes, version and origin fit 64 bits.  The value of a leaf / branch and the child key of an extension are
@@ -86,6 +86,14 @@ theorem C14_reload (H : Bytes → Bytes) (hH : ∀ b, (H b).length = 32) (get : 
   refine ⟨hu, fun n hn => ?_⟩
   have hb := Verif.Partial.buildP_complete get _ _ hu n hn
   exact ⟨hb, fun p => by rw [hb]; exact Verif.Partial.lookupP_toP t p⟩
+
+/-- "any trie read back from the store re-computes to the root it was saved under": re-deriving every key bottom-up from
+    the decoded bytes alone (`recomputeKey`: each child key replaced by the key recomputed for that child, then the node
+    is hashed) over a store that holds every node of the canonical trie `t` yields exactly the saved root key -/
+theorem C14_recompute_root (H : Bytes → Bytes) (hH : ∀ b, (H b).length = 32) (get : Bytes → Option Bytes) (t : Node)
+    (pre : List Nib) (hw : WFn t) (h : Resolves H get t pre) (n : Nat) (hn : depth (toP t) < n) :
+    recomputeKey H get n (key H t pre) = some (key H t pre) :=
+  Verif.Partial.recomputeKey_of_resolves H hH get t pre hw h n hn
 
 /-- non-vacuity: a canonical one-leaf trie and the store holding its node -/
 example : ∃ (H : Bytes → Bytes) (get : Bytes → Option Bytes) (t : Node), (∀ b, (H b).length = 32) ∧ WFn t ∧
